@@ -395,8 +395,73 @@ def check_seeds():
     return _obl("lightworks/emulator/simulation/sampler.py:Sampler/QuickSampler#bnd.seeded", n, fails, "fixed seed => identical results; N-outputs methods return exactly N")
 
 
+def check_single_shot():
+    """sample(): the state returned for a uniform draw r is the one whose cumulative-probability interval contains r, the intervals being those of the
+    reported distribution normalised to one - also when the package-wide probability threshold has truncated a lossless distribution (total < 1)"""
+    import random as _random
+    import lightworks as lw
+    from lightworks import emulator
+    import lightworks.emulator.simulation.sampler as smod
+    import lightworks.emulator.simulation.quick_sampler as qmod
+    fails, n = [], 0
+    old_thr = lw.settings.sampler_probability_threshold
+    try:
+        for thr in (1e-9, 0.01, 0.03):
+            lw.settings.sampler_probability_threshold = thr
+            for label, circ, inp in setups():
+                for kind in ("sampler", "quick"):
+                    if kind == "quick" and "lossy" in label:
+                        continue
+                    try:
+                        obj = emulator.Sampler(circ, lw.State(inp)) if kind == "sampler" else emulator.QuickSampler(circ, lw.State(inp))
+                        pd = dict(obj.probability_distribution)
+                    except Exception:  # noqa: BLE001
+                        continue            # nothing survives the threshold for this configuration
+                    if not pd:
+                        continue
+                    tot = sum(float(v) for v in pd.values())
+                    cum, edges = 0.0, []
+                    for st, p in pd.items():
+                        cum += float(p) / tot
+                        edges.append((tuple(st.s), cum))
+                    mod = smod if kind == "sampler" else qmod
+                    for r in [0.0, 0.999999] + [e - 1e-9 for _, e in edges] + [min(e + 1e-9, 0.9999999) for _, e in edges[:-1]] + [0.37, 0.62]:
+                        if r < 0:
+                            continue
+                        n += 1
+                        want = next(s_ for s_, e in edges if r < e) if r < edges[-1][1] else edges[-1][0]
+                        # the library draws with random.random(): scripted here
+                        real = getattr(mod, "random", None)
+                        patched = []
+                        for holder in (mod, _random):
+                            if hasattr(holder, "random") and callable(getattr(holder, "random")):
+                                patched.append((holder, holder.random))
+                                holder.random = (lambda r=r: r)
+                        try:
+                            got = obj.sample()
+                        except Exception as e:  # noqa: BLE001
+                            fails.append((dict(setup=label, kind=kind, threshold=thr, draw=r), f"sample() raised {type(e).__name__}: {e}"))
+                            continue
+                        finally:
+                            for holder, f_ in patched:
+                                holder.random = f_
+                        if kind == "sampler":
+                            full = tuple(got.s)
+                            ok = full == want
+                        else:
+                            ok = tuple(got.s) == want
+                        if not ok:
+                            fails.append((dict(setup=label, kind=kind, threshold=thr, draw=r), f"sample() returned {tuple(got.s)} for the uniform draw {r}; the normalised cumulative distribution puts it in {want}"))
+                            break
+    finally:
+        lw.settings.sampler_probability_threshold = old_thr
+    return _obl("lightworks/emulator/simulation/sampler.py:Sampler/QuickSampler.sample#bnd.single-shot-law", n, fails,
+                "sample() inverts the cumulative distribution of the reported (normalised) distribution, also when the global probability threshold truncated it")
+
+
 def unit(tier="quick", seed=0, which="detector"):
-    f = dict(detector=check_detector, sampler=lambda: check_categorical("sampler"), quick=lambda: check_categorical("quick"), inputs=check_n_inputs, seeds=check_seeds)[which]
+    f = dict(detector=check_detector, sampler=lambda: check_categorical("sampler"), quick=lambda: check_categorical("quick"), inputs=check_n_inputs, seeds=check_seeds,
+             single=check_single_shot)[which]
     o = f()
     if o["result"] == "bounded-fail":
         o["replay_spec"] = dict(module="vf.tasks.t_sampling", func="replay", args=[which])
